@@ -153,7 +153,7 @@ def random_history(rnd: random.Random, prop: str, length: int) -> tuple[dict, li
             vals = [[t, rnd.choice(PAYLOADS)] for t in sorted(rnd.sample([0, 1, 2, 48], rnd.randint(0, 2)))]
             ch.append([cid, {"type": rnd.choice([0, 6, 23]), "desc": rnd.choice(["", "d"]), "vals": vals}])
         init_nodes.append([nid, {"type": 17, "ver": "2.0", "bat": rnd.choice([0, 50]), "sn": "", "sv": "", "hb": 0,
-                                 "sl": rnd.random() < (0.6 if prop in ("C07", "C08", "C12") else 0.2),
+                                 "sl": rnd.random() < (0.6 if prop in ("C07", "C08", "C12") else (0.4 if prop == "C03" else 0.2)),
                                  "rb": False, "ch": sorted(ch)}])
     if prop == "C11" and rnd.random() < 0.5:
         dom = rnd.sample(range(0, 256), rnd.choice([0, 1, 5, 40, 200, 250]))
@@ -173,11 +173,11 @@ def random_history(rnd: random.Random, prop: str, length: int) -> tuple[dict, li
         r = rnd.random()
         w = {"C04": (.14, .3, .5, .58, .8, .84, .9, .95), "C06": (.06, .12, .25, .4, .8, .85, .9, .97),
              "C07": (.04, .08, .12, .14, .40, .42, .95, .97), "C08": (.03, .06, .09, .1, .45, .46, .97, .98),
-             "C10": (.1, .2, .4, .5, .85, .95, .97, .98), "C11": (.15, .2, .22, .24, .9, .92, .94, .96),
-             "C12": (.03, .06, .08, .1, .35, .37, .95, .97), "C03": (.08, .16, .3, .38, .75, .8, .85, .9),
+             "C10": (.1, .2, .4, .5, .85, .95, .97, .98), "C11": (.15, .2, .22, .24, .84, .86, .88, .97),
+             "C12": (.03, .06, .08, .1, .35, .37, .95, .97), "C03": (.08, .16, .3, .38, .70, .75, .87, .9),
              "C05": (.1, .15, .2, .25, .9, .95, .97, .98)}[prop]
         if r < w[0]:
-            ev = dict(k="recv", n=rnd.choice(nodes_pool + [0]), c=255, cmd=0, ack=0, t=rnd.choice([17, 18]), p=rnd.choice(VERSIONS))
+            ev = dict(k="recv", n=rnd.choice(nodes_pool + [0]), c=255, cmd=0, ack=0, t=rnd.choice([17, 18]), p=rnd.choice(VERSIONS + [""]))
         elif r < w[1]:
             ev = dict(k="recv", n=n, c=c, cmd=0, ack=0, t=rnd.choice([0, 6, 23, 39, 40, 99, -1]), p=rnd.choice(["", "d", "e", "x;y"]))
         elif r < w[2]:
@@ -203,7 +203,7 @@ def random_history(rnd: random.Random, prop: str, length: int) -> tuple[dict, li
             nn = 0 if it in (2, 9, 14) else (255 if it == 3 and rnd.random() < 0.7 else n)
             cc = rnd.choice([255, 255, 5]) if it == 3 else 255
             ev = dict(k="recv", n=nn, c=cc, cmd=3, ack=0, t=it, p=pl)
-            if prop in ("C08", "C12") and it in (22, 32) and rnd.random() < (0.6 if prop == "C08" else 0.3):
+            if prop in ("C08", "C12", "C03") and it in (22, 32) and rnd.random() < (0.6 if prop == "C08" else 0.3):
                 ev["fault"] = f"rel:{rnd.randint(1, 4)}"
         elif r < w[5]:
             ev = dict(k="recv", n=n, c=255, cmd=4, ack=0, t=rnd.choice([0, 1, 5, 6]), p="")
@@ -226,10 +226,36 @@ def random_history(rnd: random.Random, prop: str, length: int) -> tuple[dict, li
             ev["buf"] = rnd.random() < 0.85
         elif r < w[7]:
             ev = dict(k="reboot", n=n) if rnd.random() < (0.5 if prop == "C05" else 0.75) else dict(k="cycle")
+            if prop == "C11":
+                ev = dict(k=rnd.choice(["snapshot", "reload", "cycle"]))
         else:
             cls = rnd.choice(sorted(BAD_LINES))
             ev = dict(k="recvbad", p=cls, line=rnd.choice(BAD_LINES[cls]))
         evs.append(ev)
+    return init, evs
+
+
+def storm_history(rnd: random.Random) -> tuple[dict, list]:
+    """C08: the same command's release write fails at several consecutive wakes, then a wake succeeds."""
+    proto = rnd.choice(["2.0", "2.1", "2.2"])
+    wake_t = 32 if proto == "2.2" else 22
+    nodes = [[n, {"type": 17, "ver": "2.0", "bat": 0, "sn": "", "sv": "", "hb": 0, "sl": True, "rb": False,
+                  "ch": [[0, {"type": 6, "desc": "", "vals": []}], [1, {"type": 6, "desc": "", "vals": []}]]}] for n in (1, 2)]
+    init = {"metric": True, "ver": proto, "proto": proto, "nodes": nodes}
+    evs = []
+    ncmd = rnd.randint(1, 3)
+    for i in range(ncmd):
+        evs.append(dict(k="send", n=1, c=i % 2, cmd=1, ack=0, t=i // 2, p=f"v{i}", buf=True))
+    if rnd.random() < 0.5:
+        evs.append(dict(k="send", n=2, c=0, cmd=1, ack=0, t=0, p="other", buf=True))
+    wake = lambda n, f=None: dict(k="recv", n=n, c=255, cmd=3, ack=0, t=wake_t, p="" if proto == "2.2" else "1", **({"fault": f} if f else {}))  # noqa: E731
+    for _ in range(rnd.randint(1, 5)):
+        evs.append(wake(1, f"rel:{rnd.randint(1, ncmd)}"))
+        if rnd.random() < 0.3:
+            evs.append(wake(2))
+    evs.append(wake(1))
+    evs.append(wake(1))
+    evs.append(wake(2))
     return init, evs
 
 
@@ -238,7 +264,7 @@ def version_grid(tier: str) -> list[tuple[dict, list]]:
     out = []
     majors = [0, 1, 2, 3, 10] if tier == "quick" else [0, 1, 2, 3, 10, 99999]
     probes = [dict(k="recv", n=1, c=255, cmd=3, ack=0, t=t, p="") for t in (14, 15, 17, 18, 28, 29, 32, 33, 34)]
-    probes += [dict(k="recv", n=1, c=255, cmd=4, ack=0, t=t, p="") for t in (5, 6)]
+    probes += [dict(k="recv", n=1, c=255, cmd=4, ack=0, t=t, p="") for t in (0, 5, 6)]
     k = 0
     for major in majors:
         for minor in range(0, 7):
@@ -286,6 +312,11 @@ def stream_history(rnd: random.Random, length: int) -> tuple[dict, list]:
             evs.append(dict(k="recv", n=n, c=c, cmd=cmd, ack=0, t=t, p=p, raw=list(raw)))
         except UnicodeDecodeError:
             evs.append(dict(k="recvundec", n=n, c=c, cmd=cmd, ack=0, t=t, p="", raw=list(raw)))
+    if rnd.random() < 0.3:
+        # the history ends with a line longer than the stream reader's limit (what follows it is left open)
+        init["stream_limit"] = 64
+        evs = [e for e in evs if len(e["raw"]) <= 64]
+        evs.append(dict(k="recvlong", n=1, c=0, cmd=1, ack=0, t=0, p="", raw=list(b"1;0;1;0;0;" + b"x" * rnd.choice([60, 200, 5000]) + b"\n")))
     return init, evs
 
 
@@ -295,7 +326,7 @@ PROPS = {
     "C03": dict(focus={"family", "afterError"}, mc=[("absurd", 2, 3), ("presreq", 2, 3), ("version", 2, 3), ("ids", 2, 3)],
                 rand=(300, 1500, 40)),
     "C04": dict(focus={"registry", "outcome"}, mc=[("registry", 3, 4)], rand=(300, 2000, 60)),
-    "C05": dict(focus={"version", "gate"}, mc=[("version", 3, 4)], rand=(200, 1000, 30)),
+    "C05": dict(focus={"version", "gate", "outcomeKind"}, mc=[("version", 3, 4)], rand=(200, 1000, 30)),
     "C06": dict(focus={"react"}, mc=[("reactions", 2, 3)], rand=(300, 1500, 40)),
     "C07": dict(focus={"sets"}, mc=[("sleepbuf", 3, 4)], rand=(300, 2000, 60), faults=False),
     "C08": dict(focus={"sets", "faultReported"}, mc=[("sleepbuf", 3, 4)], rand=(300, 2000, 60), faults=True),
@@ -373,6 +404,10 @@ def check(prop: str) -> int:
         for _ in range(nrand):
             init, events = random_history(rnd, prop, length)
             jobs.append((init, events, None))
+        if prop == "C08":
+            for _ in range(nrand // 2):
+                init, events = storm_history(rnd)
+                jobs.append((init, events, None))
         if prop == "C05":
             for init, events in version_grid(tier):
                 jobs.append((init, events, None))
